@@ -173,15 +173,15 @@ package ipfscluster
 //@   ensures [never-unpins] nLogUnpin == old(nLogUnpin)
 //@   ensures [at-most-one] nLogPin == old(nLogPin) || nLogPin == old(nLogPin) + 1
 //@   ensures [refused-unchanged] !res2 ==> nLogPin == old(nLogPin)
-//@   ensures [bad-factors-refused] !c.config.FollowerMode && old(pin.Cid) != cid.Undef && !isRedirect(old(pin.PinOptions), old(pin.Cid)) && !validFactors(reqMin(c, old(pin.PinOptions)), reqMax(c, old(pin.PinOptions))) ==> err != nil && nLogPin == old(nLogPin)
-//@   ensures [past-expiry-refused] !c.config.FollowerMode && old(pin.Cid) != cid.Undef && !isRedirect(old(pin.PinOptions), old(pin.Cid)) && old(pin.ExpireAt) != 0 && old(pin.ExpireAt) < old(now) ==> err != nil && nLogPin == old(nLogPin)
-//@   ensures [type-change-refused] !c.config.FollowerMode && old(pin.Cid) != cid.Undef && !isRedirect(old(pin.PinOptions), old(pin.Cid)) && haskey(pinset, old(pin.Cid)) && pinset[old(pin.Cid)].Type != old(pin.Type) ==> err != nil && nLogPin == old(nLogPin)
-//@   ensures [downgrade-refused] !c.config.FollowerMode && old(pin.Cid) != cid.Undef && !isRedirect(old(pin.PinOptions), old(pin.Cid)) && haskey(pinset, old(pin.Cid)) && pinset[old(pin.Cid)].Mode == api.PinModeRecursive && old(pin.Mode) != api.PinModeRecursive ==> err != nil && nLogPin == old(nLogPin)
+//@   ensures [bad-factors-refused] !c.config.FollowerMode && old(pin.Cid) != cid.Undef && !(isRedirect(old(pin.PinOptions), old(pin.Cid)) && len(blacklist) == 0) && !validFactors(reqMin(c, old(pin.PinOptions)), reqMax(c, old(pin.PinOptions))) ==> err != nil && nLogPin == old(nLogPin)
+//@   ensures [past-expiry-refused] !c.config.FollowerMode && old(pin.Cid) != cid.Undef && !(isRedirect(old(pin.PinOptions), old(pin.Cid)) && len(blacklist) == 0) && old(pin.ExpireAt) != 0 && old(pin.ExpireAt) < old(now) ==> err != nil && nLogPin == old(nLogPin)
+//@   ensures [type-change-refused] !c.config.FollowerMode && old(pin.Cid) != cid.Undef && !(isRedirect(old(pin.PinOptions), old(pin.Cid)) && len(blacklist) == 0) && haskey(pinset, old(pin.Cid)) && pinset[old(pin.Cid)].Type != old(pin.Type) ==> err != nil && nLogPin == old(nLogPin)
+//@   ensures [downgrade-refused] !c.config.FollowerMode && old(pin.Cid) != cid.Undef && !(isRedirect(old(pin.PinOptions), old(pin.Cid)) && len(blacklist) == 0) && haskey(pinset, old(pin.Cid)) && pinset[old(pin.Cid)].Mode == api.PinModeRecursive && old(pin.Mode) != api.PinModeRecursive ==> err != nil && nLogPin == old(nLogPin)
 //@   ensures [success-one-entry] err == nil && res2 ==> nLogPin == old(nLogPin) + 1
-//@   ensures [entry-cid] nLogPin == old(nLogPin) + 1 && !isRedirect(old(pin.PinOptions), old(pin.Cid)) ==> lastLogged.Cid == old(pin.Cid)
-//@   ensures [entry-options] nLogPin == old(nLogPin) + 1 && !isRedirect(old(pin.PinOptions), old(pin.Cid)) ==> optsAsRequested(c, lastLogged.PinOptions, old(pin.PinOptions))
-//@   ensures [entry-factors-valid] nLogPin == old(nLogPin) + 1 && !isRedirect(old(pin.PinOptions), old(pin.Cid)) ==> validFactors(lastLogged.ReplicationFactorMin, lastLogged.ReplicationFactorMax)
-//@   ensures [everywhere-empty] nLogPin == old(nLogPin) + 1 && !isRedirect(old(pin.PinOptions), old(pin.Cid)) && lastLogged.ReplicationFactorMin == -1 ==> len(lastLogged.Allocations) == 0
+//@   ensures [entry-cid] nLogPin == old(nLogPin) + 1 && !(isRedirect(old(pin.PinOptions), old(pin.Cid)) && len(blacklist) == 0) ==> lastLogged.Cid == old(pin.Cid)
+//@   ensures [entry-options] nLogPin == old(nLogPin) + 1 && !(isRedirect(old(pin.PinOptions), old(pin.Cid)) && len(blacklist) == 0) ==> optsAsRequested(c, lastLogged.PinOptions, old(pin.PinOptions))
+//@   ensures [entry-factors-valid] nLogPin == old(nLogPin) + 1 && !(isRedirect(old(pin.PinOptions), old(pin.Cid)) && len(blacklist) == 0) ==> validFactors(lastLogged.ReplicationFactorMin, lastLogged.ReplicationFactorMax)
+//@   ensures [everywhere-empty] nLogPin == old(nLogPin) + 1 && !(isRedirect(old(pin.PinOptions), old(pin.Cid)) && len(blacklist) == 0) && lastLogged.ReplicationFactorMin == -1 ==> len(lastLogged.Allocations) == 0
 //@   ensures [returns-logged] nLogPin == old(nLogPin) + 1 ==> res != nil && *res == lastLogged
 //@   modifies nLogPin, lastLogged, heap(api.Pin)
 
@@ -305,7 +305,7 @@ package ipfscluster
 //@   ensures [never-unpins] nLogUnpin == old(nLogUnpin)
 //@   ensures [at-most-one-entry] nLogPin == old(nLogPin) || nLogPin == old(nLogPin) + 1
 //@   ensures [follower-does-nothing] c.config.FollowerMode ==> nLogPin == old(nLogPin)
-//@   ensures [same-cid-same-options] nLogPin == old(nLogPin) + 1 && !isRedirect(old(pin.PinOptions), old(pin.Cid)) ==> lastLogged.Cid == old(pin.Cid) && optsAsRequested(c, lastLogged.PinOptions, old(pin.PinOptions))
+//@   ensures [same-cid-same-options] nLogPin == old(nLogPin) + 1 ==> lastLogged.Cid == old(pin.Cid) && optsAsRequested(c, lastLogged.PinOptions, old(pin.PinOptions))
 //@   modifies nLogPin, lastLogged, heap(api.Pin)
 
 //@ func (c *Cluster) vacatePeer
